@@ -178,3 +178,71 @@ package graph
 //@     invariant own: ref.arr == s.arr || fresh(ref.arr)
 //@     invariant inPlace: ref.arr == s.arr ==> ref.off == s.off
 //@     invariant prefix: len(ref) >= len(s) && (forall i int :: 0 <= i && i < len(s) ==> ref[i] == s[i])
+
+// ---- PathSegment: size accounting of the path tree (C17) ---------------------------------------------------
+//
+// The memory estimate BreadthFirst compares with the limit is the size field along the trunk chain. Ghost depth
+// orders the chain (a trunk is strictly shallower than its branch), which is what makes "each trunk is visited once"
+// expressible without a reachability predicate. Proved: Detach is idempotent (a second call changes no size, no
+// branch list and no flag), the detached segment keeps its own size, its trunk loses exactly that size, and every other
+// segment either keeps its size or is shallower and loses exactly that size. Which shallower segments are trunks of s
+// is not expressed (no reachability); the bounded stand-in c17_traversal_test.go compares whole trees.
+
+//@ ghost field PathSegment.depth int
+//@ pure func trunkOrdered() bool { forall p *PathSegment :: p != nil && p.Trunk != nil ==> p.Trunk.depth < p.depth }
+
+//@ func (s *PathSegment) SizeOf() size.Size
+//@   requires s != nil
+//@   nomod
+//@   ensures result == s.size
+
+//@ pure func lost(before size.Size, amount size.Size, after size.Size) bool { after + amount == before || after + amount == before + 18446744073709551616 }
+
+//@ func (s *PathSegment) Detach()
+//@   requires s != nil && trunkOrdered()
+//@   nosafety
+//@   modifies s.detached, all(PathSegment.size), s.Trunk.Branches, contents(s.Trunk.Branches)
+//@   ensures flagged: s.detached
+//@   ensures ordered: trunkOrdered()
+//@   ensures own: s.size == old(s.size)
+//@   ensures again: old(s.detached) ==> (forall p *PathSegment :: p.size == old(p.size)) && (s.Trunk != nil ==> len(s.Trunk.Branches) == old(len(s.Trunk.Branches)) && s.Trunk.Branches.arr == old(s.Trunk.Branches.arr))
+//@   ensures trunk: !old(s.detached) && s.Trunk != nil ==> lost(old(s.Trunk.size), old(s.size), s.Trunk.size)
+//@   ensures others: forall p *PathSegment :: p.size == old(p.size) || (!old(s.detached) && p.depth < s.depth && lost(old(p.size), old(s.size), p.size))
+//@   loop 1
+//@     invariant flagged: s.detached && s.size == old(s.size)
+//@     invariant above: sizeCursor != nil ==> sizeCursor.depth < s.depth
+//@     invariant trunkDone: s.Trunk != nil && sizeCursor != s.Trunk ==> lost(old(s.Trunk.size), old(s.size), s.Trunk.size)
+//@     invariant below: forall p *PathSegment :: (sizeCursor != nil && p.depth <= sizeCursor.depth ==> p.size == old(p.size)) && (p.size == old(p.size) || (p.depth < s.depth && lost(old(p.size), old(s.size), p.size)))
+
+// Descend: the new segment is a fresh leaf below s, one level deeper (ghost depth assigned here), s keeps its branches
+// and gains the new one at the end; whatever amount s gained, its trunk gained the same unless s was detached, and
+// every other segment is unchanged or not deeper than s and gained the same amount (arithmetic is the machine's:
+// amounts are compared modulo 2^64). What computeAndSetSize puts into the leaf is not specified here.
+//@ pure func sameGain(before size.Size, after size.Size, refBefore size.Size, refAfter size.Size) bool { after - before == refAfter - refBefore || after - before == refAfter - refBefore + 18446744073709551616 || after - before + 18446744073709551616 == refAfter - refBefore }
+//@ pure func gained(before size.Size, amount size.Size, after size.Size) bool { after == before + amount || after + 18446744073709551616 == before + amount }
+
+//@ heappure github.com/specterops/dawgs/util/size.Of
+//@ func (s *PathSegment) computeAndSetSize()
+//@   opaque
+//@   requires s != nil
+//@   modifies s.size
+
+//@ func (s *PathSegment) Descend(node *Node, relationship *Relationship) *PathSegment
+//@   requires s != nil && trunkOrdered()
+//@   nosafety
+//@   modifies all(PathSegment.size), s.Branches, contents(s.Branches)
+//@   ghostset result.depth := s.depth + 1
+//@   ensures made: fresh(result) && result.Trunk == s && result.Node == node && result.Edge == relationship && !result.detached
+//@   ensures ordered: trunkOrdered()
+//@   ensures branch: len(s.Branches) == old(len(s.Branches)) + 1 && s.Branches[len(s.Branches) - 1] == result
+//@   ensures kept: forall i int :: 0 <= i && i < old(len(s.Branches)) ==> s.Branches[i] == old(s.Branches[i])
+//@   ensures trunk: !s.detached && s.Trunk != nil ==> sameGain(old(s.Trunk.size), s.Trunk.size, old(s.size), s.size)
+//@   ensures others: forall p *PathSegment :: p == result || p.size == old(p.size) || (p.depth <= s.depth && sameGain(old(p.size), p.size, old(s.size), s.size))
+//@   loop 0
+//@     invariant leaf: nextSegment != nil && fresh(nextSegment) && nextSegment.Trunk == s && nextSegment.Node == node && nextSegment.Edge == relationship && !nextSegment.detached
+//@     invariant branches: len(s.Branches) == old(len(s.Branches)) + 1 && s.Branches[len(s.Branches) - 1] == nextSegment && (forall i int :: 0 <= i && i < old(len(s.Branches)) ==> s.Branches[i] == old(s.Branches[i]))
+//@     invariant above: sizeCursor != nil ==> sizeCursor.depth <= s.depth && sizeCursor != nextSegment
+//@     invariant sDone: sizeCursor != s ==> gained(old(s.size), sizeAdded, s.size)
+//@     invariant sNotYet: sizeCursor == s ==> s.size == old(s.size)
+//@     invariant trunkDone: !s.detached && s.Trunk != nil && sizeCursor != s && sizeCursor != s.Trunk ==> gained(old(s.Trunk.size), sizeAdded, s.Trunk.size)
+//@     invariant below: forall p *PathSegment :: p == nextSegment || ((sizeCursor != nil && (p.depth < sizeCursor.depth || p == sizeCursor) ==> p.size == old(p.size)) && (p.size == old(p.size) || (p.depth <= s.depth && gained(old(p.size), sizeAdded, p.size))))
